@@ -8,10 +8,18 @@ class Node(persistent.Persistent):
 
 
 class NodeNA(persistent.Persistent):
-    """has __getnewargs__: references to it are stored as bare oids"""
+    """has __getnewargs__ whose arguments __new__ requires: references to it are stored as bare
+    oids, and a ghost can only be made after its record was read"""
+
+    def __new__(cls, tag):
+        inst = persistent.Persistent.__new__(cls)
+        return inst
+
+    def __init__(self, tag='na'):
+        self.tag = tag
 
     def __getnewargs__(self):
-        return ()
+        return (self.__dict__.get('tag', 'na'),)
 
 
 RESOLVE_LOG = []
